@@ -304,6 +304,38 @@ fn build_scheme(out: &mut Out, with_boom: bool) -> Box<ffi::Scheme> {
         out.impl_failure("capi setup", &format!("scheme JSON differs: C {:?} vs Rust {rj}", cjs.map(|b| String::from_utf8_lossy(&b).to_string())));
     }
     ffi::wirefilter_free_string(cj.json);
+    // ... and means the same: the C builder (`Default`) and the Rust builder (`new()`) must agree
+    // on behaviour that no document shows, e.g. the documented default "nil != x is true"
+    let fill = |sch: &wirefilter::Scheme| -> wirefilter::ExecutionContext<'static> {
+        let mut c = wirefilter::ExecutionContext::<()>::new(sch);
+        c.set_field_value_from_name("ip1", std::net::IpAddr::from([10u8, 0, 0, 1])).unwrap();
+        c.set_field_value_from_name("str1", &b"ab"[..]).unwrap();
+        c.set_field_value_from_name("num1", 1i64).unwrap();
+        c.set_field_value_from_name("num2", 2i64).unwrap();
+        c.set_field_value_from_name("b1", true).unwrap();
+        c.set_field_value_from_name("arr1", wirefilter::LhsValue::Array(wirefilter::Array::new(Type::Int))).unwrap();
+        c.set_field_value_from_name("map1", wirefilter::LhsValue::Map(wirefilter::Map::new(Type::Bytes))).unwrap();
+        c
+    };
+    let (cc, rc) = (fill(&s), fill(&rs));
+    for (text, documented) in [
+        ("map1[\"absent\"] != \"x\"", true),
+        ("arr1[7] != 5", true),
+        ("not (arr1[7] != 5)", false),
+        ("map1[\"absent\"] == \"x\"", false),
+        ("arr1[7] != 5 and num1 == 1", true),
+    ] {
+        let run = |sch: &wirefilter::Scheme, ctx: &wirefilter::ExecutionContext<'_>| -> Option<bool> {
+            std::panic::catch_unwind(std::panic::AssertUnwindSafe(|| sch.parse(text).ok()?.compile().execute(ctx).ok())).ok().flatten()
+        };
+        let (a, b) = (run(&s, &cc), run(&rs, &rc));
+        if a != b || a != Some(documented) {
+            out.impl_failure(
+                &format!("capi twin-scheme {}", hex(text.as_bytes())),
+                &format!("{text:?}: scheme built through the C API gives {a:?}, the same scheme built through the Rust API {b:?}, documented {documented}"),
+            );
+        }
+    }
     s
 }
 
@@ -731,26 +763,42 @@ fn random_call(out: &mut Out, w: &mut World, rng: &mut Rng, recs: &mut Vec<Rec>)
         18 => {
             // whole-context deserialization
             let mut c = ffi::wirefilter_create_execution_context(w.scheme);
-            let jsons: [&[u8]; 6] = [b"{\"num1\":3}", b"{\"num1\":\"x\"}", b"{\"nosuch\":1}", b"{", b"{\"b1\":true,\"str1\":\"a\\u0000b\"}", b"{\"str1\":\"plain text value\",\"num1\":7}"];
+            let jsons: [&[u8]; 8] = [b"{\"num1\":3}", b"{\"num1\":\"x\"}", b"{\"nosuch\":1}", b"{", b"{\"b1\":true,\"str1\":\"a\\u0000b\"}", b"{\"str1\":\"plain text value\",\"num1\":7}", b"{\"num1\":5,\"nosuch\":1}", b"{\"num1\":5,\"str1\":3}"];
             let json = *rng.pick(&jsons);
             // the caller owns the buffer and reuses it once the call has returned
+            let mut r = wirefilter::ExecutionContext::<()>::new(w.scheme);
+            // a context that already holds values: whatever the deserializer does with them on
+            // success or failure, both APIs must do the same
+            let preset = rng.chance(1, 2);
+            if preset {
+                let okp = ffi::wirefilter_add_int_value_to_execution_context(&mut c, "num2".as_ptr().cast(), 4, 42)
+                    & ffi::wirefilter_add_bool_value_to_execution_context(&mut c, "b1".as_ptr().cast(), 2, true);
+                r.set_field_value_from_name("num2", 42i64).unwrap();
+                r.set_field_value_from_name("b1", true).unwrap();
+                if !okp {
+                    out.impl_failure("capi dectx preset", "a C setter refused a well-typed value");
+                }
+            }
             let mut buf: Vec<u8> = json.to_vec();
             let okc = ffi::wirefilter_deserialize_json_to_execution_context(&mut c, buf.as_ptr(), buf.len());
             buf.iter_mut().for_each(|b| *b = b'x');
             std::mem::forget(buf);
-            let mut r = wirefilter::ExecutionContext::<()>::new(w.scheme);
             let mut de = serde_json::Deserializer::from_reader(json);
             let expect = (&mut r).deserialize(&mut de).map_err(|e| e.to_string());
-            recs.push(match expect {
-                Ok(()) => {
-                    let cj = ffi::wirefilter_serialize_execution_context_to_json(&mut c);
-                    let rj = serde_json::to_string(&r).unwrap();
-                    if ras_bytes(&cj.json) != Some(rj.as_bytes()) {
-                        out.impl_failure(&format!("capi dectx {}", hex(json)), "deserialized context serializes differently through C and Rust API");
-                    }
-                    ffi::wirefilter_free_string(cj.json);
-                    rec("dectx", "ok1", b"", b_ret(okc))
+            {
+                // after success AND after failure the two contexts hold the same values
+                let cj = ffi::wirefilter_serialize_execution_context_to_json(&mut c);
+                let rj = serde_json::to_string(&r).unwrap();
+                if ras_bytes(&cj.json) != Some(rj.as_bytes()) {
+                    out.impl_failure(
+                        &format!("capi dectx {} preset={preset}", hex(json)),
+                        &format!("after deserializing (result {:?}) the context serializes differently through C ({:?}) and Rust API ({rj})", expect.is_ok(), ras_bytes(&cj.json).map(|b| String::from_utf8_lossy(b).to_string())),
+                    );
                 }
+                ffi::wirefilter_free_string(cj.json);
+            }
+            recs.push(match expect {
+                Ok(()) => rec("dectx", "ok1", b"", b_ret(okc)),
                 Err(m) => rec("dectx", "err", m.as_bytes(), b_ret(okc)),
             });
             ffi::wirefilter_free_execution_context(c);
